@@ -668,6 +668,43 @@ def translate_si(repo):
             "quantities": quantities}
 
 
+def translate_file(path, repo):
+    """Translate a single-file downstream system (quantity! blocks inside `mod <name> { ... }` and one system! block),
+    e.g. /verif/harness/csys.rs, into the same table structure as translate_si."""
+    src = open(path, encoding="utf-8").read()
+    toks = lex(src, path)
+    p = P(toks, path)
+    found = []
+    last_mod = None
+    while not p.at("eof"):
+        if p.at("id", "mod") and p.at("id", None, 1) and p.at("punct", "{", 2):
+            last_mod = p.peek(1)[1]
+            p.next()
+        elif p.at("id", "quantity") and p.at("punct", "!", 1) and p.at("punct", "{", 2):
+            p.next(); p.next(); p.next()
+            q = parse_quantity_block(p, {}, path)
+            q["module"] = last_mod
+            found.append(q)
+        else:
+            p.next()
+    sysd = parse_system(path)
+    default_markers = parse_default_kind(os.path.join(repo, "src", "lib.rs"))
+    kinds = resolve_kinds(sysd, default_markers)
+    byname = {q["module"]: q for q in found}
+    quantities = []
+    nbase = len(sysd["base"])
+    for m in sysd["modules"]:
+        if m["module"] not in byname:
+            raise TranslateError(f"{path}: module {m['module']} listed in system! has no quantity! block")
+        q = byname[m["module"]]
+        if q["alias"] != m["alias"]:
+            raise TranslateError(f"{path}: alias mismatch for {m['module']}")
+        if len(q["dim"]) != nbase:
+            raise TranslateError(f"{path}: {len(q['dim'])} exponents for {nbase} base quantities in {m['module']}")
+        quantities.append(q)
+    return {"prefixes": {}, "prefix_order": [], "system": sysd, "kinds": kinds, "quantities": quantities}
+
+
 def tables_json(tables):
     qs = []
     for q in tables["quantities"]:
